@@ -169,6 +169,64 @@ def _run_unit_job(args):
     return (unit_name, canary_name, run_unit(unit, {can.qual: mutated}, canary_expect=list(can.expect)))
 
 
+UNIT_LIMIT_S = {'quick': 1500, 'thorough': 3600}
+
+
+def _job_child(job, conn):
+    try:
+        conn.send(_run_unit_job(job))
+    except BaseException as e:          # noqa
+        import traceback
+        conn.send((job[1], job[2], {'error': 'CRASH %s: %s\n%s' % (e.__class__.__name__, e, traceback.format_exc()[-1500:]),
+                                    'obligations': {}, 'paths': 0}))
+    finally:
+        conn.close()
+
+
+def run_jobs_with_limit(jobs, workers, limit_s):
+    """every unit (and every canary run) in its own process, at most `workers` at a time; a process that exceeds the
+    wall-clock limit is terminated and its unit reported as undecided (a solver call that ignores its timeout must
+    not hang the check)"""
+    import multiprocessing as mp
+    ctx = mp.get_context('fork')
+    pending = list(jobs)
+    live = []           # (process, parent_conn, job, start)
+    while pending or live:
+        while pending and len(live) < workers:
+            job = pending.pop(0)
+            pc, cc = ctx.Pipe(duplex=False)
+            pr = ctx.Process(target=_job_child, args=(job, cc), daemon=True)
+            pr.start()
+            cc.close()
+            live.append((pr, pc, job, time.time()))
+        still = []
+        for pr, pc, job, t0 in live:
+            if pc.poll(0.02):
+                try:
+                    yield pc.recv()
+                except EOFError:
+                    yield (job[1], job[2], {'error': 'CRASH worker died without a result', 'obligations': {}, 'paths': 0})
+                pr.join(5)
+                continue
+            if not pr.is_alive():
+                # finished without sending (should not happen) or died
+                if pc.poll(0.5):
+                    yield pc.recv()
+                else:
+                    yield (job[1], job[2], {'error': 'CRASH worker died without a result', 'obligations': {}, 'paths': 0})
+                continue
+            if time.time() - t0 > limit_s:
+                pr.terminate()
+                pr.join(5)
+                yield (job[1], job[2], {'error': 'EngineError: unit exceeded the wall-clock limit of %d s and was stopped' % limit_s,
+                                        'obligations': {}, 'paths': 0})
+                continue
+            still.append((pr, pc, job, t0))
+        live = still
+        if live and not pending:
+            time.sleep(0.05)
+
+
 def native_match(vid, patterns):
     for p in patterns:
         if p.startswith('re:'):
@@ -218,12 +276,11 @@ def check_property(prop, modname, tier='quick', native=None, workers=None, extra
     results = {}
     canary_results = {}
     if workers > 1 and len(jobs) > 1:
-        with ProcessPoolExecutor(max_workers=workers) as ex:
-            for uname, cname, res in ex.map(_run_unit_job, jobs):
-                if cname is None:
-                    results[uname] = res
-                else:
-                    canary_results[(uname, cname)] = res
+        for uname, cname, res in run_jobs_with_limit(jobs, workers, UNIT_LIMIT_S[tier if tier in UNIT_LIMIT_S else 'quick']):
+            if cname is None:
+                results[uname] = res
+            else:
+                canary_results[(uname, cname)] = res
     else:
         for j in jobs:
             uname, cname, res = _run_unit_job(j)
